@@ -214,7 +214,10 @@ class Rule_ST05(BaseRule):
             subquery_parent,
             is_fixable,
         ) in results_list:
-            if bracketed_ctas or is_recursive or not is_fixable:
+            # NOTE: `output_select` is empty if the statement following the
+            # CTEs isn't one we know how to rebuild (e.g. WITH ... DELETE).
+            # In that case we still report the issue, but without a fix.
+            if bracketed_ctas or is_recursive or not is_fixable or not output_select:
                 continue
             # Compute fix.
             output_select_clone = clone_map[output_select[0]]
